@@ -327,7 +327,7 @@ package scanner
 //@ pred startsDirective(f stepFunc) := in(f, stateRoot, stateExpectKeyword)
 
 //@ functype stepFunc(s, c)
-//@   property C01,C12,C13
+//@   property C01,C12,C13,C08
 //@   requires s != nil && s.step == self && fileOK(s) && paramsOK(s)
 //@   requires s.curIndex <= s.dataSize
 //@   requires imp(s.curIndex < s.dataSize, c == s.data.data[s.curIndex] && c != 0) && imp(s.curIndex == s.dataSize, c == 0)
@@ -341,6 +341,8 @@ package scanner
 //@   ensures imp(result == nil && s.curIndex < s.dataSize, scanOK(s, s.step, s.curIndex + 1))
 //@   ensures imp(result == nil && s.curIndex == s.dataSize, s.gOpen == 0 || s.gOpenAt <= s.dataSize)
 //@   ensures 0 <= s.gFree && s.gFree >= old(s.gFree)
+//@   symmetric[C08,@nl] c: '\n' ~ '\r'
+//@   symmetric[C08,@ws] c: ' ' ~ '\t'
 //@   ensures[C13,@kw-step] imp(isLetterState(self) && result == nil,
 //@       (isLetterState(s.step) && lit(s.step) == lit(self) + char(c) && s.gOpen == 1)
 //@       || (s.step == stateParameterOrAnnotation && isKw(lit(self) + char(c)) && s.gOpen == 0 && s.gFree == old(s.curIndex) + 1))
